@@ -15,6 +15,7 @@ RULE = (
     "superset; 1..3 consecutive save/load cycles, in half the cases onto a path that already holds an archive of exactly the same shapes with shorter names (or of the same rows with smaller mappings); 4% of the cases are long screens (1000..9001 rows, thorough tier also 65537/70001; up to 20000 treatment names, 5000 samples, 4500 plates) whose longest and multi-byte names sit at drawn, mostly late, positions; ExperimentSpace.from_screen saved/loaded too. Non-trivial = mapping strictly "
     "larger than the rows' own encoding, or a non-ASCII or empty name; afterwards the same object is changed in place (set_observed, Plate.merge), saved and loaded again. distinct = distinct case JSON."
     ' Also: supplied mappings numbered by hand (ids and entries in no particular order) in a third of the cases, and fixed cases in which the archive is written, read and re-written by separate interpreter processes with different string-hash salts.'
+    ' Also: one lineage saved and loaded 800 (thorough 2500) times in a row; in the two-cycle cases every third write request of the save fails in turn with ENOSPC over an older archive (a save that returns normally must have saved).'
 )
 ASSUMPTIONS = [
     "0-row screens are excluded: Screen.save_h5 refuses them (TypeError from np.char.encode) - a refusal, not a lossy round trip",
@@ -25,7 +26,7 @@ ASSUMPTIONS = [
 
 def budgets(tier):
     if tier == "quick":
-        return {"examples": 700, "max_s": 80, "shrink_s": 20, "shards": 1}
+        return {"examples": 700, "max_s": 100, "shrink_s": 20, "shards": 1}
     return {"examples": 2500, "max_s": 700, "shrink_s": 90, "shards": 16}
 
 
@@ -99,6 +100,8 @@ def exhaustive(tier):
     sizes = [4097, 9000] if tier == "quick" else [4097, 9000, 65537, 70001]
     for c in _xproc_cases(tier):
         yield c
+    # one lineage saved and loaded many hundred times in a row (each save is made from the screen the previous load returned)
+    yield {"chain": 800 if tier == "quick" else 2500, "seed": 3}
     for n in sizes:
         yield {"long": {"n_rows": n, "arity": 2, "n_names": 20000, "n_samples": 5000, "n_plates": 4500, "special": [["t", 1.0, 9, "-liposomal"], ["s", 0.999, 10, "-resistant"], ["p", 0.999, 3, "\u00fc"]], "control": "DMSO"}, "cycles": 1, "superset": False}
 
@@ -156,6 +159,26 @@ def _check_xproc(case):
     finally:
         tmp.cleanup(p1, p2)
     return {"nontrivial": True, "labels": ["one-process-per-step", "hand-numbered-mappings"]}
+
+
+def _check_chain(case):
+    from batchie.data import Screen
+
+    rows = [{"s": ["HT-29", "A549", "U2OS"][i % 3], "p": "p%d" % (i % 4), "t": ["drug%d" % (i % 5), ["drug%d" % ((i + 2) % 5), "DMSO"][i % 4 == 0]], "d": [[1.0, 0.1][i % 2], 0.0 if i % 4 == 0 else 2.5], "o": 0.05 * i} for i in range(14)]
+    s0 = S.build_screen({"arity": 2, "control": "DMSO", "rows": rows, "observed": ["p0", "p2"], "layout": None})
+    a, b = tmp.fresh("chain_a.h5"), tmp.fresh("chain_b.h5")
+    cur = s0
+    try:
+        for k in range(case["chain"]):
+            p = a if k % 2 == 0 else b
+            cur.save_h5(p)
+            cur = Screen.load_h5(p)
+            if k % 50 == 49 or k < 3:
+                compare_screens(s0, cur, "chain.cycle%d" % (k + 1))
+        compare_screens(s0, cur, "chain.last_cycle")
+    finally:
+        tmp.cleanup(a, b)
+    return {"nontrivial": True, "labels": ["long-save-load-chain"], "counts": {"chain_cycles": case["chain"]}}
 
 
 def observables(s):
@@ -232,6 +255,8 @@ def check_case(case):
 
     if "xproc" in case:
         return _check_xproc(case)
+    if "chain" in case:
+        return _check_chain(case)
 
     sc = _long_sc(case["long"]) if "long" in case else case["screen"]
     strict = False
@@ -305,6 +330,21 @@ def check_case(case):
             again = Screen.load_h5(p)
             # Plate.merge re-encodes plate ids but leaves the in-memory plate mapping stale; the mapping is therefore not compared here
             compare_screens(s0, again, "resave_after_inplace_change", plate_mapping=False)
+        if case["cycles"] == 2 and not case["superset"] and "long" not in case:
+            # the save with a storage failure injected into each of its write requests in turn, over an older archive: a save
+            # that returns normally has saved
+            from vf import iofault
+
+            def fault_paths(k):
+                q = tmp.fresh("fault_%d.h5" % k)
+                paths.append(q)
+                try:
+                    _short_sibling(s0, sc["control"]).save_h5(q)
+                except ValueError:
+                    pass
+                return q
+
+            nreq, ret_, rais_ = iofault.save_under_faults(s0.save_h5, lambda q: compare_screens(s0, Screen.load_h5(q), "save_under_faults", plate_mapping=False), fault_paths, require, "save_under_faults", "Screen.save_h5", points=range(case.get("hand", [0])[0] % 3 if case.get("hand") else 0, 64, 3))
         # experiment space
         es = ExperimentSpace.from_screen(s0)
         p = tmp.fresh("space.h5")
